@@ -72,9 +72,21 @@ def _expand_chunk(args):
 
 
 def _verify_chunk(args):
-    """Fresh replay of complete histories; returns the digests."""
+    """Fresh replay of complete histories of NEW states; returns the digests and, if the
+    system defines `state_check` (an expensive per-state oracle such as a save/load round
+    trip), its violations — evaluated once per distinct state."""
     system = _SYS
-    return [digest(system.canon(replay(system, h)[0])) for h in args]
+    out = []
+    for h in args:
+        live = replay(system, h)[0]
+        d = digest(system.canon(live))
+        vs = []
+        if hasattr(system, "state_check"):
+            vs = system.state_check(live)
+            for v in vs:
+                v["case"] = {"history": [system.ops[i] for i in h]}
+        out.append((d, vs))
+    return out
 
 
 class Result:
@@ -96,7 +108,7 @@ class HarnessError(Exception):
 
 
 def bfs(ctx, system, depth, op_indices=None, state_cap=4_000_000, chunk=64,
-        init_histories=((),), keep_frontiers=False, max_violations=200):
+        init_histories=((),), keep_frontiers=False, max_violations=200, verify_chunk=256):
     global _SYS
     _SYS = system
     ctx.close()  # make sure the pool is (re)forked AFTER _SYS is set
@@ -112,6 +124,8 @@ def bfs(ctx, system, depth, op_indices=None, state_cap=4_000_000, chunk=64,
             seen[d] = tuple(h)
             frontier.append(tuple(h))
             res.violations += system.invariant(live)
+            if hasattr(system, "state_check"):
+                res.violations += system.state_check(live)
     res.states = len(seen)
     res.levels.append(len(frontier))
     if keep_frontiers:
@@ -139,14 +153,16 @@ def bfs(ctx, system, depth, op_indices=None, state_cap=4_000_000, chunk=64,
                         new_frontier.append(hist + (oi,))
                         res.op_changed[oi] = res.op_changed.get(oi, 0) + 1
                 fi += 1
-        if hasattr(system, "save") and new_frontier:
-            vchunks = [new_frontier[i:i + 256] for i in range(0, len(new_frontier), 256)]
+        if (hasattr(system, "save") or hasattr(system, "state_check")) and new_frontier:
+            vchunks = [new_frontier[i:i + verify_chunk] for i in range(0, len(new_frontier), verify_chunk)]
             vres = ctx.pmap(_verify_chunk, vchunks)
             for vc, vr in zip(vchunks, vres):
-                for h, d in zip(vc, vr):
+                for h, (d, vs) in zip(vc, vr):
                     if seen.get(d) != h:
                         raise HarnessError(f"state reached by restore differs from fresh replay: {h}")
                     res.replay_verified += 1
+                    if vs and len(res.violations) < max_violations:
+                        res.violations += vs
         res.states = len(seen)
         res.depth_completed = level
         res.levels.append(len(new_frontier))
